@@ -290,7 +290,7 @@ pub fn run(tier: Tier) -> ! {
         }
     }
     // CLI part
-    let sigma = ['a', ',', '"', ' ', '\n', '\r', 'あ', '#'];
+    let sigma = ['a', ',', '"', ' ', '\n', '\r', 'あ', '#', '\\', 'n'];
     let hostile: Vec<String> = gen::strings(&sigma, 1, tier.pick(2, 3)).iter().map(|w| gen::s(w)).collect();
     let extremes = [0, -1, 32767, -32768, i32::MAX, i32::MIN];
     let mk = |i: usize, w: &str| -> WR {
